@@ -71,6 +71,9 @@ PkgPath(d) == IF Len(d) = 1 THEN ModulePath ELSE ModulePath \o "/" \o JoinSegs(T
 \*   w/a/b  gogo.go      //line tmpl/mid.qtpl:7 between package clause and declarations (relative target)
 \*   w/k    go_log.go    starts with  //line tmpl/gen.qtpl:1                (relative target, before the package clause)
 \* (gogo / go_log: names whose letters also occur in the suffix ".go": trimSuffix is not trimRight)
+\* Every package also has a file a0.go that sorts first and declares no configured interface: the interfaces are
+\* never in the first file of their package.
+FirstFile == "a0.go"
 SrcFile(d) == CASE d = <<"w">> -> "svc.go"
                 [] d = <<"w", "a">> -> "sv c%o%.go"
                 [] d = <<"w", "a", "b">> -> "gogo.go"
